@@ -13,7 +13,15 @@ import (
 	"golang.org/x/tools/go/ssa/ssautil"
 )
 
-const repoDir = "/repo"
+// repoDir is the tree under check: /repo, unless VERIF_REPO points at a
+// scratch worktree (used to run the checks against seeded changes without
+// touching /repo).
+var repoDir = func() string {
+	if d := os.Getenv("VERIF_REPO"); d != "" {
+		return d
+	}
+	return "/repo"
+}()
 
 var verifDir = func() string {
 	if d := os.Getenv("VERIF_DIR"); d != "" {
